@@ -218,6 +218,22 @@ def check_class(prog, cd, rep, cname, amap, items, c):
         else:
             rep.fail("decoder-keeps-channels", u.reader.module.path.name, fq, obj["node"], f"the decoded block's `{amap}` is `{gotm[:80]}`, not the stored channel list: items come back on other channels than they were stored with",
                      construct=f"{fq} decoded {amap}")
+    # 5c .. bit for bit: the channel numbers are read back with the dtype they were written with (same width AND same signedness:
+    # a channel >= 32768 written unsigned comes back negative through a signed read, and the explicit-channel refusal then misses it)
+    try:
+        un = cd.unify(u)
+        mentions = lambda e: e is not None and any(is_self_attr(x, amap) for x in ast.walk(e))
+        wmap = [t for t in walk_terms(u.wterms) if isinstance(t, Field) and t.role == "data" and mentions(t.value)]
+        rmap = [t for t in walk_terms(u.rterms) if isinstance(t, Field) and t.role == "data" and t.ph and mentions(un.bind.get(t.ph))]
+        for wt in wmap:
+            for rt in rmap:
+                if (wt.dt.kind, wt.dt.size) == (rt.dt.kind, rt.dt.size):
+                    rep.ok("decoder-keeps-channels", f"{fq}: channel numbers written and read as {wt.dt.describe()}", nontrivial=True)
+                else:
+                    rep.fail("decoder-keeps-channels", u.reader.module.path.name, fq, rt.node, f"the channel numbers are written as {wt.dt.describe()} and read back as {rt.dt.describe()}: "
+                             "channels outside the common range come back as other numbers", construct=f"{fq} channel dtype {rt.dt.describe()}")
+    except AnalysisError:
+        pass
     # 7 lookup-types (removal by label)
     for f2 in c.all_funcs():
         if f2.kind != "method" or "label" not in f2.params:
